@@ -517,6 +517,10 @@ func (w *World) onAccept(conn net.Conn, req *model.Request) {
 		conn.Close()
 		return
 	}
+	if req.DstAddr.FQDN == "echo.sim" {
+		go w.echoServe(conn, req)
+		return
+	}
 	key, ok := parseSessKey(req.DstAddr.FQDN)
 	w.mu.Lock()
 	rt := w.sessions[key]
